@@ -10,7 +10,7 @@ from supervisor.states import RUNNING_STATES
 
 from vsim import gen
 from vsim.cluster import TICK, views, groups, vt, ident
-from vsim.sim import World, Runaway
+from vsim.sim import World, Runaway, Livelock
 
 BEHAVIOURS = ['normal'] * 6 + ['slow_stop', 'stubborn', 'crash_early', 'backoff_then_run', 'exit_expected',
                                 'exit_unexpected', 'fork_error', 'no_file', 'slow_start']
@@ -141,6 +141,8 @@ class Run:
         if not live:
             return
         nick = rng.choice(live)
+        if self.knobs.get('on_master_p') and rng.random() < self.knobs['on_master_p'] and self.master() in live:
+            nick = self.master()
         rec = {'vt': vt(w), 'kind': kind, 'on': nick}
         strategies = gen.STARTING
         managed = [a for a, m in self.model.items() if m['managed']]
@@ -308,6 +310,9 @@ class Run:
                 self.do_action(kind)
                 gap = self.rng.choice(knobs.get('gaps', [0.0, 0.05, 0.5, 2.0, 5.0, 12.0, 30.0]))
                 w.run_for(gap)
+            for kind in knobs.get('then', ()):
+                self.do_action(kind)
+                w.run_for(self.rng.choice(knobs.get('gaps', [0.0, 0.5, 2.0])))
             if getattr(self, 'reboot_until', 0.0) > w.now:
                 w.run_until(self.reboot_until + 1.0)
             # quiet period: until quiescence with OPERATION everywhere, bounded
@@ -323,6 +328,11 @@ class Run:
             # have seen everything that happened; the end-of-run oracles are not evaluated
             self.count('runaway_cases')
             w.max_steps = w.max_start_requests = 10 ** 9
+            return [v for monitor in self.monitors for v in monitor.violations]
+        except Livelock as exc:
+            self.count('livelock_cases')
+            for monitor in self.monitors:
+                monitor.on_livelock(self, exc)
             return [v for monitor in self.monitors for v in monitor.violations]
         finally:
             w.close()
